@@ -135,6 +135,20 @@ def window_sweep(rng):
     return out
 
 
+def fallback_overwrite_sweep(rng):
+    """a delivery of signal A starts inside A's first registration (A has a pre-existing handler) and is parked
+    after each of its first few reads while the registering thread finishes A and goes on to the first
+    registration of another signal, which overwrites `race_fallback`: the delivery must still chain A's handler,
+    once - whatever it had read before it was parked"""
+    out = []
+    for kind in ("h3:5", "h1:3"):
+        for d in range(2, 40, 3):
+            for j in range(1, 9):
+                out.append(["setup foreign 10 %s" % kind, "t0 reg 10 100", "t0 reg 12 101", "t1 deliver 10",
+                            "delay t1 %d" % d, "holdat t1 %d 400" % j, "seed %d" % rng.randint(1, 2**31), "maxsteps 4000"])
+    return out
+
+
 DROP = re.compile(r"^(t\d+ (?:H )?)drop-action (\d+)$")
 
 
